@@ -23,6 +23,7 @@ type FuncResult struct {
 	Inlined     []string
 	Havocs      []string
 	Err         string
+	Stale       []string // identifiers named by the contract that the function does not have
 }
 
 func flattenInputs(prefix string, v Val, out *[]string) {
@@ -273,6 +274,7 @@ func VerifyFunction(ld *Loaded, cs *ContractSet, fn *ssa.Function, ct *Contract)
 	res.Obligations = ex.sc.Obls
 	res.Unsupported = sortedKeys(ex.unsupported)
 	res.Assumed = sortedKeys(ex.assumedUsed)
+	res.Stale = sortedKeys(ex.staleIdents)
 	res.Inlined = sortedKeys(ex.inlinedUsed)
 	res.Havocs = sortedKeys(ex.havocCalls)
 	if ex.sc.quantFresh > 0 {
@@ -407,6 +409,7 @@ func VerifyLemma(ld *Loaded, cs *ContractSet, lm *Lemma) (res *FuncResult) {
 	res.Obligations = ex.sc.Obls
 	res.Unsupported = sortedKeys(ex.unsupported)
 	res.Assumed = sortedKeys(ex.assumedUsed)
+	res.Stale = sortedKeys(ex.staleIdents)
 	return res
 }
 
